@@ -122,6 +122,7 @@ loop:
 		fr.pc = pc
 
 		op := compile.Opcode(code[pc])
+		verifStep(thread, fn, pc, op)
 		pc++
 		var arg uint32
 		if op >= compile.OpcodeArgMin {
